@@ -967,6 +967,50 @@ def r13_3_reconcile_shape(ctx, rule: str = 'R13.3') -> List[Ob]:
                 obs.append(ok(rule, t_e, f.loc(n), construct=f"{fn}::own-edges") if own_edges else
                            violation(rule, t_e, f.loc(n), key=f"{fn}::own-edges", detail=f"edges argument: `{ast.unparse(e_) if e_ is not None else 'missing'}`"))
     obs.append(ok(rule, t, f.loc(), construct=f"{fn}::unique") if good else violation(rule, t, f.loc(), key=f"{fn}::sort-dedup"))
+    # (a') the list of trains is only ever re-bound to per-train rebuilds: every element of the new list is a SpikeTrain made
+    # from the spikes and the edges of the element it replaces.  An element substituted by something else (`s or
+    # SpikeTrain([], other edges)` - a train without spikes is falsy -, a default object, a filtered list) takes a valid
+    # train's own interval out of the common one
+    t_r = ("reconcile_spike_trains: the train list is only re-bound element by element to SpikeTrain objects built from each "
+           "element's own spikes and edges (no element is substituted, dropped or added before the common interval is computed)")
+    n_rebinds = 0
+    for n in ast.walk(src):
+        if not (isinstance(n, ast.Assign) and any(isinstance(t_, ast.Name) and t_.id == p0 for t_ in n.targets)):
+            continue
+        n_rebinds += 1
+        v = n.value
+        problem = None
+        if isinstance(v, ast.Call) and (C.dotted(v.func) or '') in ('list', 'tuple') and len(v.args) == 1 and isinstance(v.args[0], ast.Name) \
+                and v.args[0].id == p0:
+            pass                                            # a plain copy of the list
+        elif isinstance(v, ast.ListComp) and len(v.generators) == 1 and not v.generators[0].ifs and isinstance(v.generators[0].iter, ast.Name) \
+                and v.generators[0].iter.id == p0 and isinstance(v.generators[0].target, ast.Name):
+            x = v.generators[0].target.id
+            e = v.elt
+            if isinstance(e, ast.Name) and e.id == x:
+                pass
+            elif isinstance(e, ast.Call) and isinstance(e.func, ast.Name) and e.func.id == 'SpikeTrain' and e.args:
+                reads_own = any(isinstance(a_, ast.Attribute) and a_.attr == 'spikes' and isinstance(a_.value, ast.Name) and a_.value.id == x
+                                for a_ in ast.walk(e.args[0]))
+                if not reads_own:
+                    problem = f"`{ast.unparse(e)[:80]}` is not built from the spikes of the element it replaces"
+            elif isinstance(e, (ast.BoolOp, ast.IfExp)):
+                problem = (f"`{ast.unparse(e)[:80]}` substitutes some elements by another object (a SpikeTrain without spikes is "
+                           f"falsy: `len()` is its truth value)")
+            else:
+                problem = None if isinstance(e, ast.Call) else f"`{ast.unparse(e)[:80]}`"
+                if isinstance(e, ast.Call):
+                    obs.append(inconclusive(rule, t_r, f.loc(n), f"element expression `{ast.unparse(e)[:80]}`", construct=f"{fn}::rebind"))
+                    continue
+        elif isinstance(v, (ast.ListComp, ast.Call, ast.BinOp, ast.Subscript)):
+            problem = f"`{ast.unparse(n)[:90]}` changes which trains take part"
+        else:
+            obs.append(inconclusive(rule, t_r, f.loc(n), f"`{ast.unparse(n)[:80]}`", construct=f"{fn}::rebind"))
+            continue
+        if problem:
+            obs.append(violation(rule, t_r, f.loc(n), key=f"{fn}::list-rebound::{problem[:60]}", detail=problem))
+        else:
+            obs.append(ok(rule, t_r, f.loc(n), construct=f"{fn}::rebind::{n_rebinds}"))
     # (b) global edges: min of starts, max of ends
     env = Env()
     t = "reconcile_spike_trains: the common interval runs from the smallest start to the largest end"
